@@ -145,16 +145,39 @@ func (ex *Exec) scalarKeyLess(a, b Value) Term {
 	case VBool:
 		return And(Not(x.T), b.(VBool).T)
 	case VStr:
-		y := b.(VStr)
-		if x.Conc != nil && y.Conc != nil {
-			if len(*x.Conc) != len(*y.Conc) {
-				return BoolC(len(*x.Conc) < len(*y.Conc))
+		if y, ok := b.(VStr); ok {
+			if x.Conc != nil && y.Conc != nil {
+				if len(*x.Conc) != len(*y.Conc) {
+					return BoolC(len(*x.Conc) < len(*y.Conc))
+				}
+				return BoolC(*x.Conc < *y.Conc)
 			}
-			return BoolC(*x.Conc < *y.Conc)
+			if x.Atom != nil || y.Atom != nil {
+				return Lt(ex.atomTerm(x), ex.atomTerm(y))
+			}
 		}
-		return Lt(ex.atomTerm(x), ex.atomTerm(y))
+		return ex.lexLess(a, b)
+	case VSlice:
+		return ex.lexLess(a, b)
 	}
 	panic(unsupported{fmt.Sprintf("ordering of key component %T", a)})
+}
+
+// lexLess: byte-wise order of two byte-level values (shorter first when one is a prefix - length-prefixed keys).
+func (ex *Exec) lexLess(a, b Value) Term {
+	x, ok1 := ex.byteTerms(a)
+	y, ok2 := ex.byteTerms(b)
+	if !ok1 || !ok2 {
+		panic(unsupported{"ordering between an atom and a byte-level key"})
+	}
+	if len(x) != len(y) {
+		return BoolC(len(x) < len(y))
+	}
+	var r Term = BoolC(false)
+	for i := len(x) - 1; i >= 0; i-- {
+		r = Or(Lt(x[i], y[i]), And(Eq(x[i], y[i]), r))
+	}
+	return r
 }
 
 func (ex *Exec) collKeyLess(a, b Value) Term {
